@@ -52,7 +52,8 @@ structure SeqProv where
 structure SrcSt where
   state : CfdpState := .idle
   step : SStep := .IDLE
-  numReady : Nat := 0
+  /-- `_num_packets_ready`: `put_request` zeroes it without clearing the queue, so it can go negative -/
+  numReady : Int := 0
   p : Params := {}
   /-- `_AckedModeParams.step_before_retransmission`: survives `reset()` -/
   stepBefore : Option SStep := none
